@@ -184,4 +184,13 @@ theorem C04_schema_field_index_exact (fileIds modelIds : List (Nat × Nat)) (j :
     ∃ l, j.get? "index" = some (.arr l) ∧ l.length = fi.idx.length :=
   Codec.checkFieldIndex_ok fileIds modelIds j fi h
 
+/-- ENTRY BY ENTRY: in an accepted entry list every file entry, paired with the model entry at the
+    same position, is a well-formed `[value, id]` pair whose value stands for the model's value —
+    with `C04_schema_value_exact` and `C04_schema_entries_count`: the sequence of values of an
+    accepted index in schema.json IS the model's sequence of values (order included) -/
+theorem C04_schema_entries_exact (name : String) (fi mi : List (Nat × Nat)) (fuel i : Nat)
+    (js : List Json.J) (es : FIdx) (h : Codec.checkEntries name fi mi fuel i js es = .ok ()) :
+    ∀ p ∈ js.zip es, ∃ v o, Codec.entryOf p.1 = some (v, o) ∧ Codec.valueIs v p.2.1 = true :=
+  Codec.checkEntries_values name fi mi fuel i js es h
+
 end Sod.Props
